@@ -386,7 +386,7 @@ def large_tables(seed, nl, nr, vocab, maxtok, kind="tokens"):
     lv = [row() for _ in range(nl)]
     rv = [row() for _ in range(nr)]
     L = pd.DataFrame({"extra": [i % 7 for i in range(nl)],
-                      "key": [10 ** 12 + 7919 * i for i in range(nl)],
+                      "key": [2 ** 60 + 1 + 7919 * i for i in range(nl)],
                       "val": pd.Series(lv, dtype=object)})
     L.index = pd.Index([(i * 37) % (nl + 3) for i in range(nl)])
     R = pd.DataFrame({"val": pd.Series(rv, dtype=object),
@@ -407,7 +407,7 @@ def large_case(draw, tier):
             "tgrid": draw(st.integers(1, 100)),
             "op": draw(st.sampled_from([">=", ">=", ">", "="])),
             "allow_missing": draw(st.booleans()),
-            "n_jobs": draw(st.sampled_from([1, 1, 4, 16, -1])),
+            "n_jobs": draw(st.sampled_from([1, 1, 2, 3, 5, 7, 11, 12, 13, 14, 15, 18, 20, 24, -1])),
             "attrs": draw(st.booleans())}
 
 
